@@ -6,12 +6,15 @@ use crate::types::strp;
 
 impl BoundingBox {
     pub fn xfrm_scale(&self, sx: f32, sy: f32) -> Self {
-        // scale about (0, 0) - not the center of the bbox
+        // scale about (0, 0) - not the center of the bbox; a negative factor mirrors
+        // the box, so its edges have to be put back in order
+        let (xa, xb) = (self.x1 * sx, self.x2 * sx);
+        let (ya, yb) = (self.y1 * sy, self.y2 * sy);
         Self {
-            x1: self.x1 * sx,
-            y1: self.y1 * sy,
-            x2: self.x2 * sx,
-            y2: self.y2 * sy,
+            x1: xa.min(xb),
+            y1: ya.min(yb),
+            x2: xa.max(xb),
+            y2: ya.max(yb),
         }
     }
 
